@@ -10,6 +10,7 @@ import (
 	"os"
 	"sort"
 	"sync"
+	"sync/atomic"
 	"time"
 
 	"github.com/atlassian/gostatsd"
@@ -28,6 +29,14 @@ type input struct {
 	N       int        `json:"n,omitempty"`
 	Dps     []mmgen.Dp `json:"dps,omitempty"`
 	Batches int        `json:"batches,omitempty"` // dispatch: datapoint j belongs to batch j % Batches
+	// dispatch under back-pressure: every worker's queue holds Q maps, the workers listed in Slow
+	// are paused (their aggregator blocks in ReceiveMap until the harness releases it, so their
+	// queues fill up and DispatchMetricMap meets full queues), Conc = the batches are dispatched
+	// by concurrent goroutines instead of back to back.
+	Pressure bool  `json:"pressure,omitempty"`
+	Q        int   `json:"q,omitempty"`
+	Slow     []int `json:"slow,omitempty"`
+	Conc     bool  `json:"conc,omitempty"`
 }
 
 func bs(a []int) string {
@@ -46,14 +55,21 @@ func seriesOf(mm *gostatsd.MetricMap, f func(n, k string)) {
 	mm.Sets.Each(func(n, k string, _ gostatsd.Set) { f(n, k) })
 }
 
-// recAggr is an Aggregator that records the maps its worker hands it.
+// recAggr is an Aggregator that records the maps its worker hands it.  A paused aggregator
+// blocks in ReceiveMap until its gate is closed: its worker stops taking maps from its queue.
 type recAggr struct {
-	id  int
-	mu  *sync.Mutex
-	got [][]*gostatsd.MetricMap // shared, indexed by aggregator id
+	id   int
+	mu   *sync.Mutex
+	got  [][]*gostatsd.MetricMap // shared, indexed by aggregator id
+	gate chan struct{}           // nil = never paused
+	seen *int64                  // shared: number of ReceiveMap calls entered so far
 }
 
 func (a *recAggr) ReceiveMap(mm *gostatsd.MetricMap) {
+	atomic.AddInt64(a.seen, 1)
+	if a.gate != nil {
+		<-a.gate
+	}
 	a.mu.Lock()
 	a.got[a.id] = append(a.got[a.id], mm)
 	a.mu.Unlock()
@@ -63,22 +79,84 @@ func (a *recAggr) Process(statsd.ProcessFunc) {}
 func (a *recAggr) Reset()                     {}
 
 // dispatch pushes the batches through a real BackendHandler with n running workers and returns,
-// per worker, the maps its aggregator received, in order.
-func dispatch(batches []*gostatsd.MetricMap, n int, mon *[]string) [][]*gostatsd.MetricMap {
+// per worker, the maps its aggregator received.  With in.Pressure the queues are short and some
+// workers are paused while the batches are dispatched; they are released once the dispatchers
+// have stalled (or finished), and a watchdog reports a dispatch that never completes.
+func dispatch(batches []*gostatsd.MetricMap, in input, mon *[]string) [][]*gostatsd.MetricMap {
+	n := in.N
 	var mu sync.Mutex
 	got := make([][]*gostatsd.MetricMap, n)
+	qsize := len(batches) + 1
+	gates := map[int]chan struct{}{}
+	if in.Pressure {
+		qsize = in.Q
+		for _, w := range in.Slow {
+			if w >= 0 && w < n && gates[w] == nil {
+				gates[w] = make(chan struct{})
+			}
+		}
+	}
 	next := 0
+	var entered int64
 	af := statsd.AggregatorFactoryFunc(func() statsd.Aggregator {
-		a := &recAggr{id: next, mu: &mu, got: got}
+		a := &recAggr{id: next, mu: &mu, got: got, gate: gates[next], seen: &entered}
 		next++
 		return a
 	})
-	bh := statsd.NewBackendHandler(nil, 1, n, len(batches)+1, af)
+	bh := statsd.NewBackendHandler(nil, 1, n, qsize, af)
 	ctx, cancel := context.WithCancel(context.Background())
 	done := make(chan struct{})
 	go func() { bh.Run(ctx); close(done) }()
-	for _, mm := range batches {
-		bh.DispatchMetricMap(context.Background(), mm)
+
+	dispatched := make(chan struct{})
+	if in.Pressure && in.Conc {
+		var wg sync.WaitGroup
+		for _, mm := range batches {
+			mm := mm
+			wg.Add(1)
+			go func() { defer wg.Done(); bh.DispatchMetricMap(context.Background(), mm) }()
+		}
+		go func() { wg.Wait(); close(dispatched) }()
+	} else {
+		go func() {
+			for _, mm := range batches {
+				bh.DispatchMetricMap(context.Background(), mm)
+			}
+			close(dispatched)
+		}()
+	}
+	// let the dispatchers run into the full queues, then release the paused workers
+	if len(gates) > 0 {
+		// stalled = no worker has entered ReceiveMap during two consecutive milliseconds
+		last, stable := int64(-1), 0
+	stall:
+		for stable < 2 {
+			select {
+			case <-dispatched:
+				break stall
+			case <-time.After(time.Millisecond):
+			}
+			if cur := atomic.LoadInt64(&entered); cur == last {
+				stable++
+			} else {
+				last, stable = cur, 0
+			}
+		}
+		for _, g := range gates {
+			close(g)
+		}
+	}
+	select {
+	case <-dispatched:
+	case <-time.After(20 * time.Second):
+		// leave the handler running: cancelling would close queues under a blocked sender
+		*mon = append(*mon, "DispatchMetricMap did not return although every worker is running")
+		_ = cancel
+		mu.Lock()
+		defer mu.Unlock()
+		cp := make([][]*gostatsd.MetricMap, n)
+		copy(cp, got)
+		return cp
 	}
 	// worker i must own the aggregator created i-th (the index flush reports are tagged with)
 	wait := bh.Process(context.Background(), func(workerID int, a statsd.Aggregator) {
@@ -191,7 +269,7 @@ func runOne(em *hlib.Emitter, in input) {
 			total += mmgen.Size(maps[b])
 		}
 		var got [][]*gostatsd.MetricMap
-		msg := hlib.Recover(func() { got = dispatch(maps, in.N, &c.Monitors) })
+		msg := hlib.Recover(func() { got = dispatch(maps, in, &c.Monitors) })
 		if msg != "" {
 			c.Monitors = append(c.Monitors, "DispatchMetricMap panicked: "+msg)
 			break
@@ -218,6 +296,9 @@ func runOne(em *hlib.Emitter, in input) {
 		}
 		if seen != total {
 			c.Monitors = append(c.Monitors, fmt.Sprintf("workers received %d series, the batches held %d", seen, total))
+		}
+		if in.Pressure {
+			c.Class = "dispatch-pressure"
 		}
 		c.Obs = map[string]int{"series": total, "workers": in.N, "batches": nb}
 		bl := make([]string, nb)
@@ -349,6 +430,21 @@ func gen(r *hlib.Rand, i int) input {
 		return input{Kind: "bucket", Name: name, Key: key, N: n}
 	case 2, 3: // dispatch through the real BackendHandler, several batches sharing series
 		u := universe(r, i%8 == 3)
+		if r.Chance(2, 3) {
+			// back-pressure: short queues, paused workers, back-to-back or concurrent batches
+			n := hlib.Pick(r, []int{1, 2, 2, 3, 3, 4, 5, 8, 16})
+			in := input{Kind: "dispatch", N: n, Batches: r.Range(2, 6), Dps: genDps(r, u, 4, 60),
+				Pressure: true, Q: r.Intn(3), Conc: r.Chance(1, 3)}
+			for w := 0; w < n; w++ {
+				if r.Chance(1, 2) {
+					in.Slow = append(in.Slow, w)
+				}
+			}
+			if len(in.Slow) == 0 && r.Chance(3, 4) {
+				in.Slow = []int{r.Intn(n)}
+			}
+			return in
+		}
 		n := shardCount(r, false)
 		if n > 16 && r.Chance(2, 3) {
 			n = r.Range(1, 16)
